@@ -252,6 +252,9 @@ func TestVerifC02(t *testing.T) {
 		// the answer that is already here must be returned at once all the same
 		c02Tsys("async-tdc-tcp-c2-blocked-write", tOpt{Kind: "tdc-tcp", Callers: 2, Srv: srvOpt{AnswerAll: true, PauseAfterAnswer: 2 * time.Second}, CtxMode: []int{1, 0}}, p2),
 		c02Tsys("async-pipeline-tcp-c3-blocked-write", tOpt{Kind: "pipeline-tcp", Callers: 3, MaxCq: 3, LazyQueue: 3, Srv: srvOpt{AnswerAll: true, PauseAfterAnswer: 2 * time.Second}, CtxMode: []int{1, 1, 0}}, pp2),
+		// legal replies that do not echo the question byte for byte
+		c02Tsys("async-tdc-udp-c2-reply-forms", tOpt{Kind: "tdc-udp", Callers: 2, Srv: srvOpt{Reorder: true, AnswerForms: []int{0, 1, 2}}, CtxMode: []int{1, 1}}, p2),
+		c02Tsys("async-tdc-tcp-c2-reply-forms", tOpt{Kind: "tdc-tcp", Callers: 2, Srv: srvOpt{Reorder: true, AnswerForms: []int{1, 2}}, CtxMode: []int{1, 1}}, pp2),
 		c02Tsys("async-tdc-udp-c2-runt", tOpt{Kind: "tdc-udp", Callers: 2, Srv: srvOpt{Reorder: true, Short: true}, CtxMode: []int{1, 1}}, p2),
 		c02Tsys("async-reuse-c2-seq2", tOpt{Kind: "reuse", Callers: 2, Seq: 2, Srv: srvOpt{CloseBudget: 1, CloseAfterAnswerOnly: true}, CtxMode: []int{1, 1}}, pp2),
 	}
